@@ -9,3 +9,26 @@ CHECKS = {
         "note": "trusts the 12-line bit-serial reference (self-tested in setup) and CPython's sys.monitoring LINE events for the fold probe",
     },
 }
+
+_SM_NOTE = ("trusts the reference model vf/sm_model.py (a reading of the statements; don't-cares listed in DESIGN.md 3.2), "
+            "the HAL simulator's paused clock and local NetworkTables; state functions are generated code that logs at the boundary")
+for _pid, _txt in {
+    "C01": "which state functions run per iteration (engaged / unengaged / must_finish / default / next_state_now chains), direct count rule 1+#next_state_now, no regular non-must_finish state in an unengaged iteration",
+    "C02": "expiry decisions (strict on the 1/64 s grid, ties elsewhere), run-at-least-once, successor clock = predecessor expiry, cycle restarts, durations from the NetworkTables topic (default, pre-existing, edited), state_tm never negative",
+    "C03": "tm / state_tm / initial_call per invocation for all 16 ordered parameter subsets on every decorator, type-exact, per entry kind (engage, next_state incl. self, expiry, restart, default fallback)",
+    "C04": "done() invoked at every stop cause, is_executing / current_state (attribute and NetworkTables topic) after every external call, restart at first / initial_state with initial_call True and tm 0",
+}.items():
+    CHECKS[_pid] = {
+        "engine": "sm_engine",
+        "technique": "runtime monitor: generated StateMachine subclasses and online-generated call histories under the paused HAL clock, checked against a set-valued executable reference model",
+        "ref": "DESIGN.md section 3",
+        "text": "Real magicbot.StateMachine subclasses (1-6 states, inheritance, overrides) are driven through ~10^4 (quick) / ~4*10^5 (thorough) random histories with adversarial clock steps; the monitor checks " + _txt + ". Held on the executions observed; event-kind counters in the evidence show which situations were actually reached.",
+        "note": _SM_NOTE,
+    }
+CHECKS["C13"] = {
+    "engine": "sm_engine",
+    "technique": "runtime monitor: AutonomousStateMachine in lock-step with a plain StateMachine twin engaged every iteration, plus absolute trace rules after the end",
+    "ref": "DESIGN.md section 3 (C13)",
+    "text": "Generated AutonomousStateMachine subclasses run 1-4 autonomous periods (on_enable / on_iteration / on_disable, disable mid-run, many post-end iterations); every state-function call and argument is compared with a twin StateMachine of identical shape that is engage()d before every iteration at the same clock values; after done()/last-state expiry no state function may run and is_executing must stay False until the next on_enable, which must start at the first state with tm 0.",
+    "note": "twin and machine share the StateMachine core, so defects of the core itself are C01-C04's business, by design; trusts the paused HAL clock",
+}
